@@ -690,6 +690,31 @@ impl Model {
                 }
                 Outcome::Ok { handle: last }
             }
+            Op::AnnotateFile { items, fault } => {
+                // only files whose elements are all valid requests: an invalid *request* inside a file is the
+                // listed non-atomic batch finding, what is decided here is a fault of the file itself
+                let valid_upto = if *fault == FileFault::None { items.len() } else { items.len().saturating_sub(1) };
+                if *fault != FileFault::None && items.len() < 2 {
+                    return Outcome::Skip;
+                }
+                let mut probe = self.clone();
+                let mut pfx = Effects::default();
+                let mut last = None;
+                for (id, target, data) in items.iter().take(valid_upto) {
+                    match probe.annotate(id, target, data, &mut pfx) {
+                        Ok(Some(h)) => last = Some(h),
+                        _ => return Outcome::Skip,
+                    }
+                }
+                if *fault != FileFault::None {
+                    // the file is not a list of annotations: nothing may be added
+                    return Outcome::Err;
+                }
+                *self = probe;
+                fx.created_datasets += pfx.created_datasets;
+                fx.dedup_hits += pfx.dedup_hits;
+                Outcome::Ok { handle: last }
+            }
             Op::RemoveAnnotation { a } => {
                 let t = self.ann_target(a);
                 match t.uid {
